@@ -382,16 +382,14 @@ impl VerifManager {
     }
 
     pub fn dial(&mut self, peer: PeerId) -> Result<(), String> {
-        self.manager
-            .dial(peer)
+        tokio::task::unconstrained(self.manager.dial(peer))
             .now_or_never()
             .expect("dial never awaits")
             .map_err(|error| format!("{error:?}"))
     }
 
     pub fn dial_address(&mut self, address: Multiaddr) -> Result<(), String> {
-        self.manager
-            .dial_address(address)
+        tokio::task::unconstrained(self.manager.dial_address(address))
             .now_or_never()
             .expect("dial_address never awaits")
             .map_err(|error| format!("{error:?}"))
@@ -463,7 +461,7 @@ impl VerifManager {
     pub fn poll(&mut self) -> Vec<MgrEvent> {
         let mut out = Vec::new();
         for _ in 0..10_000 {
-            let event = match self.manager.next().now_or_never() {
+            let event = match tokio::task::unconstrained(self.manager.next()).now_or_never() {
                 Some(Some(event)) => event,
                 _ => break,
             };
@@ -526,9 +524,10 @@ impl VerifManager {
             peer,
             mut protocol_set,
         } = connection;
-        let result = protocol_set
-            .report_connection_closed(peer, ConnectionId::from(id))
-            .now_or_never()
+        let result = tokio::task::unconstrained(
+            protocol_set.report_connection_closed(peer, ConnectionId::from(id)),
+        )
+        .now_or_never()
             .ok_or("report_connection_closed is blocked on a full channel")?;
         result.map_err(|error| format!("{error:?}"))
     }
@@ -537,7 +536,7 @@ impl VerifManager {
     pub fn poll_connection(&mut self, id: usize) -> Option<ConnCommand> {
         let mut shared = self.shared.lock();
         let connection = shared.live.get_mut(&id)?;
-        match connection.protocol_set.next().now_or_never() {
+        match tokio::task::unconstrained(connection.protocol_set.next()).now_or_never() {
             None => None,
             Some(None) => Some(ConnCommand::AllHandlesDropped),
             Some(Some(ProtocolCommand::ForceClose)) => Some(ConnCommand::ForceClose),
@@ -565,14 +564,12 @@ impl VerifManager {
             self.open_requests.remove(&substream_id).ok_or("no such open request")?;
         let mut shared = self.shared.lock();
         let connection = shared.live.get_mut(&id).ok_or("no such live connection")?;
-        connection
-            .protocol_set
-            .report_substream_open_failure(
-                protocol,
-                SubstreamId::from(substream_id),
-                SubstreamError::NegotiationError(NegotiationError::Timeout),
-            )
-            .now_or_never()
+        tokio::task::unconstrained(connection.protocol_set.report_substream_open_failure(
+            protocol,
+            SubstreamId::from(substream_id),
+            SubstreamError::NegotiationError(NegotiationError::Timeout),
+        ))
+        .now_or_never()
             .ok_or("blocked on a full channel")?
             .map_err(|error| format!("{error:?}"))
     }
@@ -596,16 +593,14 @@ impl VerifManager {
             stream,
             codec,
         );
-        connection
-            .protocol_set
-            .report_substream_open(
-                peer,
-                protocol,
-                Direction::Outbound(SubstreamId::from(substream_id)),
-                substream,
-                permit,
-            )
-            .now_or_never()
+        tokio::task::unconstrained(connection.protocol_set.report_substream_open(
+            peer,
+            protocol,
+            Direction::Outbound(SubstreamId::from(substream_id)),
+            substream,
+            permit,
+        ))
+        .now_or_never()
             .ok_or("blocked on a full channel")?
             .map_err(|error| format!("{error:?}"))
     }
@@ -624,10 +619,14 @@ impl VerifManager {
         let codec = connection.protocol_set.protocol_codec(&protocol);
         let substream =
             super::substream::substream_from_yamux(peer, SubstreamId::from(0usize), stream, codec);
-        connection
-            .protocol_set
-            .report_substream_open(peer, protocol, Direction::Inbound, substream, permit)
-            .now_or_never()
+        tokio::task::unconstrained(connection.protocol_set.report_substream_open(
+            peer,
+            protocol,
+            Direction::Inbound,
+            substream,
+            permit,
+        ))
+        .now_or_never()
             .ok_or("blocked on a full channel")?
             .map_err(|error| format!("{error:?}"))
     }
@@ -768,7 +767,9 @@ impl RawConnectionFixture {
     pub fn establish(&mut self, id: usize, peer: PeerId) -> Option<Result<(), String>> {
         let mut set = self.handle.protocol_set(ConnectionId::from(id));
         let endpoint = Endpoint::listener(Multiaddr::empty(), ConnectionId::from(id));
-        let result = set.report_connection_established(peer, endpoint).now_or_never()?;
+        let result =
+            tokio::task::unconstrained(set.report_connection_established(peer, endpoint))
+                .now_or_never()?;
         if result.is_ok() {
             self.sets.insert(id, (peer, set));
         }
@@ -778,7 +779,9 @@ impl RawConnectionFixture {
     /// `report_connection_closed`; `None` if a channel is full (future not ready).
     pub fn close(&mut self, id: usize) -> Option<Result<(), String>> {
         let (peer, mut set) = self.sets.remove(&id)?;
-        let result = set.report_connection_closed(peer, ConnectionId::from(id)).now_or_never()?;
+        let result =
+            tokio::task::unconstrained(set.report_connection_closed(peer, ConnectionId::from(id)))
+                .now_or_never()?;
         Some(result.map_err(|error| format!("{error:?}")))
     }
 
